@@ -31,5 +31,15 @@ var corpus = [][]string{
 	{"type cat prio-lex-off", "def -", "enc n (l (x 62) (x 61))", "enc v (l (x 62) (x 61))", "enc v (l (x 61) (x 62))", "dec n 02010062010061"},
 	{"type cat prio-sorted-rules-off", "def -", "enc v (l (x 62) (x 61) (x 61))"},
 	{"type cat prio-code", "def -", "enc v (l (n 5))", "dec v 4d00000005000000", "dec v 0905000000"},
+	// must-occur with a repeated type and a missing one (a counter instead of a set accepts [100,100] for {100,101})
+	{"type cat must2", "def -", "enc v (l (alt 100 (some (l (n 1)))) (alt 100 (some (l (n 2)))))", "dec v 0264016402",
+		"enc v (l (alt 101 (some (l))) (alt 102 (l (n 1) (x -))) (alt 101 (some (l))))", "dec v 036566010000" + "65",
+		"enc v (l (alt 100 (some (l (n 1)))) (alt 101 (some (l))))", "dec v 02640165", "enc v (l (alt 101 (some (l))) (alt 100 (some (l (n 1)))) (alt 100 (some (l (n 1)))))"},
+	{"type cat must3", "def -", "enc v (l (alt 100 (some (l (n 1)))) (alt 100 (some (l (n 2)))) (alt 102 (l (n 1) (x -))))", "dec v 0300640164026601000" + "0",
+		"enc v (l (alt 100 (some (l (n 1)))) (alt 102 (l (n 1) (x -))) (alt 103 (x 00000000)))"},
+	{"type cat must-wide", "def -", "enc v (l (alt 70000 (some (l (n 1)))) (alt 70000 (some (l (n 2)))))"},
+	// stamps in the last second of the int64-nanosecond range, and right below it
+	{"type cat top-time", "def -", "enc v (i 9223372036854775806)", "dec v feffffffffffff7f", "enc v (i 9223372036000000001)", "dec v 01280dcdffffff7f",
+		"dec v 00280dcdffffff7f", "dec v ff270dcdffffff7f", "dec v 0000000000000000", "enc v (i -9223372036854775808)", "enc v (i -1)"},
 	{"type cat top-arr", "def -", "dec v 03010002000300", "dec v 0201000200", "dec v 040100020003000400"},
 }
